@@ -144,7 +144,7 @@ func gensFor(name string, size int) []string {
 	if size <= 4<<20+(1<<19) && !quickTier {
 		return all
 	}
-	base, level, _ := strings.Cut(name, "@")
+	base, level := levelOf(name)
 	switch {
 	case base == "brotli" && (strings.HasPrefix(level, "10") || strings.HasPrefix(level, "11")):
 		return []string{"rep", "ramp", "zero"}
@@ -216,7 +216,7 @@ func boundaryHistories(c *core.Ctx) []*history {
 // stormMax: the largest page of a storm; the settings that take seconds per
 // MiB get smaller pages, their calls outlast a time slice all the same.
 func stormMax(c *core.Ctx, name, gen string) int {
-	base, level, _ := strings.Cut(name, "@")
+	base, level := levelOf(name)
 	switch {
 	case base == "brotli" && (strings.HasPrefix(level, "10") || strings.HasPrefix(level, "11")):
 		return c.N(16<<10, 64<<10)
@@ -469,7 +469,7 @@ func record(c *core.Ctx, h *history, res *execResult) {
 }
 
 func runC20(c *core.Ctx) {
-	c.Res.Rule = "histories of calls on each codec value exported by package parquet (Uncompressed, Snappy, Gzip, Brotli, Zstd, Lz4Raw: shared, pooled), on one shared value per compression level of each codec type (zstd 0-4, gzip -2/0/1/6/9, brotli quality 1-11 and lgwin 10-24, LZ4 Fastest and HC 1/4/9) and on a test codec run through the real compress.Compressor/Decompressor: round trips of generated inputs (empty, 1 B, random, repetitive, text-like, zero, ramp, mixed; sizes up to 64 KiB quick / 4 MiB thorough at random, and for every value and level the sizes just below and above 32/64/128 KiB, thorough also 1/4/8/16/32 MiB, quick 4/8 MiB for the exported values and every zstd level) with dst nil / zero-cap / a few bytes / short by any amount / one byte less than, exactly and one byte more than needed / large pre-filled with garbage / aliasing an earlier output, and with the SOURCE buffers of the call left alone, overwritten by the caller as soon as the call has returned (input of Encode, encoded form after Decode) or handed to the next Encode as its destination (buf, _ = Encode(buf[:0], next)) after which the earlier result must be unchanged, interleaved with failing decodes (truncated and bit-flipped valid streams, valid streams followed by trailing bytes, random garbage, gzip and zstd headers followed by garbage, length bombs, empty) and GC cycles, sequentially and from 8-32 goroutines at once (GOMAXPROCS of the child 1, 2, 4 or all), and for every codec value and level from 6-12 goroutines on 1, 2 or 4 Ps round-tripping pages of up to 320 KiB quick / 1 MiB thorough of every input kind (smaller for brotli quality >= 9, zstd level 4 and gzip 9 on runs: a call outlasts the scheduler's time slice and is resumed after calls of other goroutines on the same P). A case is one call (or call pair) of a history; non-trivial = non-empty input or a failing decode; distinct by codec + JSON of the call."
+	c.Res.Rule = "histories of calls on each codec value exported by package parquet (Uncompressed, Snappy, Gzip, Brotli, Zstd, Lz4Raw: shared, pooled), on one shared value per compression level of each codec type (zstd 0-4, gzip -2/0/1/6/9, brotli quality 1-11 and lgwin 10-24, LZ4 Fastest and HC 1/4/9) and on a test codec run through the real compress.Compressor/Decompressor: round trips of generated inputs (empty, 1 B, random, repetitive, text-like, zero, ramp, mixed; sizes up to 64 KiB quick / 4 MiB thorough at random, and for every value and level the sizes just below and above 32/64/128 KiB, thorough also 1/4/8/16/32 MiB, quick 4/8 MiB for the exported values and every zstd level; for every value and level one run of zeros, one of a single non-zero byte and one of a period of 1-8 bytes, each at 8, 16 or 32 MiB (thorough: three more of 4-32 MiB) - the largest ratio of each format; and every EXPORTED FIELD of every Codec struct, found by reflection (gzip Level -2..9, brotli Quality 0..11 and LGWin 0/10..24, zstd Level 0..4 and Concurrency 0/1/2/3/4/5/8/16, LZ4 Level Fast/Fastest/1..9; a field not listed gets generic values of its kind), each value once with the other fields zero and once with them drawn from their ranges: inputs of up to 64 KiB, 256 KiB-1 MiB and a prime of 2-4 MiB (thorough one more of 4-16 MiB), every length a prime or 2^k+-1, and a sample of the configurations from 6-12 goroutines) with dst nil / zero-cap / a few bytes / short by any amount / one byte less than, exactly and one byte more than needed / large pre-filled with garbage / aliasing an earlier output, and with the SOURCE buffers of the call left alone, overwritten by the caller as soon as the call has returned (input of Encode, encoded form after Decode) or handed to the next Encode as its destination (buf, _ = Encode(buf[:0], next)) after which the earlier result must be unchanged, interleaved with failing decodes (truncated and bit-flipped valid streams, valid streams followed by trailing bytes, random garbage, gzip and zstd headers followed by garbage, length bombs, empty) and GC cycles, sequentially and from 8-32 goroutines at once (GOMAXPROCS of the child 1, 2, 4 or all), and for every codec value and level from 6-12 goroutines on 1, 2 or 4 Ps round-tripping pages of up to 320 KiB quick / 1 MiB thorough of every input kind (smaller for brotli quality >= 9, zstd level 4 and gzip 9 on runs: a call outlasts the scheduler's time slice and is resumed after calls of other goroutines on the same P). A case is one call (or call pair) of a history; non-trivial = non-empty input or a failing decode; distinct by codec + JSON of the call."
 	quickTier = c.Quick()
 	maxSize := c.N(64<<10, 4<<20)
 	hostileMax := c.N(16<<10, 128<<10)
@@ -515,7 +515,11 @@ func runC20(c *core.Ctx) {
 			if strings.HasPrefix(name, "brotli@11") && ms > 256<<10 {
 				ms = 256 << 10 // seconds per MiB
 			}
-			hs = append(hs, genHistory(c, name, 10+c.Rng.Intn(15), ms, hostileMax, 30))
+			h := genHistory(c, name, 10+c.Rng.Intn(15), ms, hostileMax, 30)
+			if ms > 1<<20 {
+				h.DeadlineS = 120 // gzip 9 / LZ4 HC / brotli 10 take seconds per MiB on runs, several times that on a loaded machine
+			}
+			hs = append(hs, h)
 		}
 		h := genHistory(c, name, 6+c.Rng.Intn(6), 16<<10, 4096, 30)
 		h.Goroutines = []int{8, 16}[c.Rng.Intn(2)]
@@ -530,6 +534,27 @@ func runC20(c *core.Ctx) {
 	}
 	// sizes at the thresholds of the formats, every codec value and level
 	hs = append(hs, boundaryHistories(c)...)
+	// runs of one byte / of a short period / of zeros of 8-32 MiB: the largest ratio of each format,
+	// every codec value and level
+	for _, name := range codecNames(true) {
+		hs = append(hs, ratioHistory(c, name))
+	}
+	// every exported field of every Codec struct (found by reflection) over its range: inputs of a few KiB,
+	// a few hundred KiB and 2-4 MiB whose lengths are a multiple of nothing; a sample of the
+	// configurations also from many goroutines and (thorough) on the long runs
+	configs, unswept := fieldConfigs(c)
+	for _, u := range unswept {
+		c.Violation("codec-field-not-swept", "the exported field "+u+" is of a kind the harness cannot assign: the configurations it selects are not covered by this check", nil)
+	}
+	for _, name := range configs {
+		hs = append(hs, fieldHistory(c, name))
+	}
+	for _, k := range c.Rng.Perm(len(configs))[:min(len(configs), c.N(8, 32))] {
+		hs = append(hs, stormHistory(c, configs[k]))
+		if !c.Quick() {
+			hs = append(hs, ratioHistory(c, configs[k]))
+		}
+	}
 	// streams whose header announces a large decoded size.  Within the format's own limit (snappy < 4 GiB,
 	// zstd <= MaxInt32) the codec may allocate it and must return an error (recorded as a note); beyond it
 	// the stream must be refused without allocating (zstd: 60 GiB declared by 17 bytes)
